@@ -92,6 +92,7 @@ type repOp struct {
 	peer   int
 	val    string
 	signer string
+	bulk   int // if > 0: that many puts of distinct values, one after the other
 }
 
 type RepDriver struct {
@@ -111,17 +112,19 @@ func NewRepDriver(tier string) *RepDriver {
 				if tier != "thorough" && v == "vb" && p == 1 {
 					continue
 				}
-				d.ops = append(d.ops, repOp{e, p, v, "C"})
+				d.ops = append(d.ops, repOp{e: e, peer: p, val: v, signer: "C"})
 			}
 		}
 	}
-	d.ops = append(d.ops, repOp{1, 0, "va", "S"})
+	d.ops = append(d.ops, repOp{e: 1, peer: 0, val: "va", signer: "S"})
 	// two more 33-byte peers, crafted so that the id of (epoch 0, peer 2) is a proper byte-prefix of the id of
 	// (epoch 2, peer 3): 02||Q and Q||07 with Q starting with 03 - both look like compressed keys
 	q := append([]byte{0x03}, bytes.Repeat([]byte{0x5a}, 31)...)
 	d.peers = append(d.peers, append([]byte{0x02}, q...), append(append([]byte{}, q...), 0x07))
 	d.eps = append(append([]int64{}, d.eps...), 2)
-	d.ops = append(d.ops, repOp{0, 2, "vc", "C"}, repOp{2, 3, "vd", "C"}, repOp{2, 2, "ve", "C"})
+	d.ops = append(d.ops, repOp{e: 0, peer: 2, val: "vc", signer: "C"}, repOp{e: 2, peer: 3, val: "vd", signer: "C"}, repOp{e: 2, peer: 2, val: "ve", signer: "C"})
+	// many values for one (epoch, peer): the running number that keeps them apart outgrows one byte at 128
+	d.ops = append(d.ops, repOp{e: 1, peer: 1, val: "w", signer: "C", bulk: 130})
 	return d
 }
 func (d *RepDriver) Build() *World {
@@ -135,9 +138,14 @@ func (d *RepDriver) Init(*World) Model { return &kvModel{m: map[string][]string{
 func (d *RepDriver) NumOps() int       { return len(d.ops) }
 func (d *RepDriver) OpName(_ *Node, i int) string {
 	o := d.ops[i]
+	if o.bulk > 0 {
+		return fmt.Sprintf("%d x reputation.put(epoch %d, peer %d, %s<k>) by %s", o.bulk, o.e, o.peer, o.val, o.signer)
+	}
 	return fmt.Sprintf("reputation.put(epoch %d, peer %d, %s) by %s", o.e, o.peer, o.val, o.signer)
 }
-func (d *RepDriver) Enabled(*Node, int) bool { return true }
+func (d *RepDriver) Enabled(n *Node, i int) bool {
+	return d.ops[i].bulk == 0 || len(n.M.(*kvModel).m["bulk"]) == 0
+}
 func (d *RepDriver) Step(x *Exec, n *Node, i int) StepResult {
 	w := x.W
 	m := n.M.(*kvModel)
@@ -152,7 +160,28 @@ func (d *RepDriver) Step(x *Exec, n *Node, i int) StepResult {
 	if o.signer == "S" {
 		signer = w.Acct("S").Hash
 	}
-	obs, nn := x.Do(n, Call{Script: Script(h, "put", o.e, d.peers[o.peer], []byte(o.val)), Signers: []util.Uint160{signer}, Label: d.OpName(n, i)})
+	k := fmt.Sprintf("%d/%d", o.e, o.peer)
+	vals := []string{o.val}
+	if o.bulk > 0 {
+		vals = nil
+		for j := 0; j < o.bulk; j++ {
+			vals = append(vals, fmt.Sprintf("%s%03d", o.val, j))
+		}
+		nm.m["bulk"] = []string{"done"}
+	}
+	var obs Obs
+	nn := n
+	for _, v := range vals[:len(vals)-1] {
+		if ob, n2 := x.Do(nn, Call{Script: Script(h, "put", o.e, d.peers[o.peer], []byte(v)), Signers: []util.Uint160{signer}, Label: "reputation.put " + v}); !ob.Halt {
+			return viol("outcome", fmt.Sprintf("put of value %s: halt=%v fault=%q", v, ob.Halt, ob.Fault))
+		} else {
+			nn = n2
+		}
+		nm.m[k] = append(nm.m[k], v)
+	}
+	o.val = vals[len(vals)-1]
+	prev := nn
+	obs, nn = x.Do(prev, Call{Script: Script(h, "put", o.e, d.peers[o.peer], []byte(o.val)), Signers: []util.Uint160{signer}, Label: d.OpName(n, i)})
 	if obs.Halt != (o.signer == "C") {
 		return viol("outcome", fmt.Sprintf("halt=%v fault=%q", obs.Halt, obs.Fault))
 	}
@@ -163,7 +192,6 @@ func (d *RepDriver) Step(x *Exec, n *Node, i int) StepResult {
 		nn.M = m
 		return StepResult{Next: nn, Outcome: "FAULT"}
 	}
-	k := fmt.Sprintf("%d/%d", o.e, o.peer)
 	nm.m[k] = append(nm.m[k], o.val)
 	var soft []*Violation
 	for _, e := range d.eps {
